@@ -19,7 +19,7 @@ RULES = {
    "x % 0 with a variable dividend is accepted (only / is checked for a constant zero divisor)", "codebuild.go checkDivisionByZero"),
   ("KF-C01-4", "shift-operand-and-count-rules-not-enforced", r'^accepted-although-(shiftedoperand|negcount|overflow)/shift',
    "shifts accept a float shifted operand, a negative constant count and overflowing typed constant results", "builtin_gengo.go Lsh/Rsh, ast.go doBinaryOp"),
-  ("KF-C01-5", "conversion-accepts-unconvertible-operands", r'^accepted-although-\w+/conversion ',
+  ("KF-C01-5", "conversion-accepts-unconvertible-operands", r'^accepted-although-\w+/conversion[ /]',
    "T(x) is emitted without checking convertibility or constant representability (int(\"s\"), int8(300), string(1.5), T(nil))", "ast.go matchTypeCast finish path"),
   ("KF-C01-7", "multi-value-call-accepted-inside-a-value-list", r'^accepted-although-multi-value-in-list/',
    "f(), x on the right-hand side of :=, =, var or return (a multi-value call among several values) is accepted", "type_var_and_const.go endInit / codebuild.go doAssignWith count by operands"),
